@@ -99,6 +99,19 @@ pub fn zero_window_update_overtaken(view: &WireView, ci: usize, from_init: bool,
         }
     }
     handed.sort();
+    // a packet whose acknowledgement number is older than one handed over before it is recognisably
+    // stale; the library does not take its window (fix 1f9394c), so it does not count here either
+    let mut kept: Vec<(Us, usize, usize, u32, u16)> = Vec::new();
+    let mut max_ack: Option<u16> = None;
+    for h in &handed {
+        match max_ack {
+            Some(m) if wire::seq_lt(h.4, m) => continue,
+            _ => {}
+        }
+        max_ack = Some(h.4);
+        kept.push(*h);
+    }
+    let handed = kept;
     let last = match handed.last() {
         Some(x) => *x,
         None => return false,
@@ -383,6 +396,8 @@ pub fn silence_ended_by_segment_larger_than_window(view: &WireView, ci: usize, f
     evs.sort();
     let mut last_wnd: Option<u32> = None;
     let mut last_ack: Option<u16> = None;
+    let mut wnd_during_silence: Option<u32> = None;
+    let mut ack_during_silence: Option<u16> = None;
     let mut sent: std::collections::BTreeSet<u16> = Default::default();
     let mut highest_sent: Option<u16> = None;
     for (et, pi, mine) in evs {
@@ -395,6 +410,10 @@ pub fn silence_ended_by_segment_larger_than_window(view: &WireView, ci: usize, f
             if pk.ty != wire::ST_SYN {
                 last_wnd = Some(pk.wnd);
                 last_ack = Some(pk.ack);
+                if et <= t {
+                    wnd_during_silence = Some(pk.wnd);
+                    ack_during_silence = Some(pk.ack);
+                }
             }
             continue;
         }
@@ -403,6 +422,18 @@ pub fn silence_ended_by_segment_larger_than_window(view: &WireView, ci: usize, f
         }
         let first_tx = sent.insert(pk.seq);
         if et > t {
+            // the same thing seen from the start of the silence: the window the sender had been
+            // told when it fell silent was non-zero and smaller than its next never-sent segment,
+            // everything earlier was acknowledged - and what ended the silence was a packet of the
+            // peer that carried a larger window (not an acknowledgement of anything new)
+            let all_acked_then = match (highest_sent, ack_during_silence) {
+                (Some(h), Some(a)) => !wire::seq_lt(a, h),
+                (None, _) => true,
+                _ => false,
+            };
+            if first_tx && all_acked_then && matches!(wnd_during_silence, Some(w) if w > 0 && (pk.payload.len() as u32) > w) {
+                return true;
+            }
             // the first data transmission after the start of the silence decides (what was sent at
             // the very instant the silence begins belongs to the activity before it)
             let all_acked = match (highest_sent, last_ack) {
